@@ -43,14 +43,14 @@ theorem hookF_pure (hk : HK) (f : Cfg → Cfg) (x : FCfg) (h : ArmOk a0 x) :
     ⟨hhk, haf, hnf, hxa, y, hy, h1, h2, h3, h4⟩ | ⟨x', hl, hf, hr, hao, han, hcase⟩
   · right
     rw [hy]
-    exact ⟨hhk, rfl, Or.inl ⟨h1, haf⟩, h2, h3, hnf, hxa, h4⟩
+    exact ⟨hhk, rfl, Or.inl ⟨h1, haf⟩, h2, h3, hnf, hxa, h4.1⟩
   · rcases hcase with ⟨hhk, haf, hnf, hxa, hx'a, hcase⟩ | hcase
     · rcases hcase with ⟨y, _, e, hb, _⟩ | ⟨y, y', hb, hy, hu1, hu2, hu3, hfy⟩
       · simp [ok] at hb
       · right
         have hyx : y = x'.updC f := by simpa [ok] using hb.symm
         rw [hy]
-        refine ⟨hhk, rfl, Or.inr ⟨?_, haf⟩, hfy, hu3, hnf, hxa, ?_⟩
+        refine ⟨hhk, rfl, Or.inr ⟨?_, haf⟩, hfy.1, hu3, hnf, hxa, ?_⟩
         · show y'.l = _; rw [hu1, hyx, updC_l, hl]
         · show y'.rep = _; rw [hu2, hyx, updC_rep, hr]
     · rcases hcase with ⟨y, _, e, hb, _⟩ | ⟨y, y', e, hb, hy, _, hu, hfy, hcalled⟩
@@ -66,8 +66,8 @@ theorem hookF_pure (hk : HK) (f : Cfg → Cfg) (x : FCfg) (h : ArmOk a0 x) :
           have h5 : y'.fired = true := hfy'
           rw [hfy, hyx] at h5
           show y'.arm = none; rw [hu.2.1, hyx]; exact hao.2 h5
-        · intro hn; show y'.arm = none; rw [hu.2.1, hyx]; exact han hn
-        · show y'.rep = _; rw [hu.2.2, hyx, updC_rep, hr]
+        · intro hn; show y'.arm = none; rw [hu.2.1, hyx]; exact han.1 hn
+        · show y'.rep = _; rw [hu.2.2.1, hyx, updC_rep, hr]
 
 /-- `close()` on a process that is not closed: closed, or the fault fired before `super().on_close()` and nothing happened -/
 theorem closeF_spec (x : FCfg) (h : ArmOk a0 x) (hac : afterClose a0 = false) (hc : x.l.c.closed = false) :
@@ -117,7 +117,7 @@ theorem terminatedF_spec (x : FCfg) (h : ArmOk a0 x) (hac : afterClose a0 = fals
           have h1 : (termBaseF x').1 = y := by rw [show termBaseF x' = (y, some e) from hb]
           rw [k1] at h2; cases h2
           rw [hy]
-          refine ⟨rfl, Or.inr ?_, ?_, ?_, ?_, fun hn => k6 (han hn), Or.inr k7⟩
+          refine ⟨rfl, Or.inr ?_, ?_, ?_, ?_, fun hn => k6 (han.1 hn), Or.inr k7⟩
           · show yy.l = _; rw [huu.1, ← h1, k2, updC_l, hl]
           · show yy.fired = true; rw [hfyy, ← h1]; exact k3
           · show yy.arm = none; rw [huu.2.1, ← h1]; exact k4
@@ -133,7 +133,7 @@ theorem terminatedF_spec (x : FCfg) (h : ArmOk a0 x) (hac : afterClose a0 = fals
           · have h4 : ArmOk a0 y := h1 ▸ k4
             exact ⟨fun b hb' => h4.1 b (by rw [← hb']; exact hu.2.1.symm), fun hfy' => by
               show y'.arm = none; rw [hu.2.1]; exact h4.2 (by rw [← hfy]; exact hfy')⟩
-          · intro hn; show y'.arm = none; rw [hu.2.1, ← h1]; exact k6 (han hn)
+          · intro hn; show y'.arm = none; rw [hu.2.1, ← h1]; exact k6 (han.1 hn)
         · rw [show termBaseF x' = (y, none) from hb] at k1; cases k1
 
 variable {N : Hook → FCfg → FCfg}
@@ -183,7 +183,7 @@ theorem enteredHooksF_spec (hN : NK a0 N) (x : FCfg) (s : SObj) (h : ArmOk a0 x)
           have hy1 : (enteredBaseF N s x').1 = y := by rw [hb]
           rw [hy1] at k1
           rw [hy]
-          refine ⟨rfl, Or.inr ⟨?_, ?_, ?_⟩, hfy, hu3, hmk hhk⟩
+          refine ⟨rfl, Or.inr ⟨?_, ?_, ?_⟩, hfy.1, hu3, hmk hhk⟩
           · show Same2 _ y'.l.c; rw [hu1]; exact k1.1
           · show y'.l.c.st = _; rw [hu1]; exact k1.2.1
           · show y'.l.trans = _; rw [hu1]; exact k1.2.2
